@@ -480,7 +480,8 @@ func (c *Check) capabilityHelpers(rule string) {
 		appendForm := len(apps) == 1 && inLoop(apps[0].Block()) && everyIteration(apps[0].(ssa.Instruction)) && len(encs) == 1
 		ok = ok && (appendForm || (len(apps) == 0 && p.inPlaceEncodeLoop(fn, 4)))
 		// the Value handed out is that buffer, whole
-		valOK := false
+		valOK := true
+		nValStores := 0
 		ownInstrs(fn, func(in ssa.Instruction) {
 			st, isS := in.(*ssa.Store)
 			if !isS {
@@ -514,12 +515,18 @@ func (c *Check) capabilityHelpers(rule string) {
 					return true
 				case *ssa.Const:
 					return x.IsNil()
+				case *ssa.UnOp:
+					// grown through the field itself: c.Value = append(c.Value, …)
+					if fa2, isF := x.X.(*ssa.FieldAddr); isF && structFieldName(fa2) == "Value" && fa2.X == fa.X {
+						return true
+					}
 				}
 				return false
 			}
-			valOK = walk(st.Val)
+			nValStores++
+			valOK = valOK && walk(st.Val)
 		})
-		ok = ok && valOK
+		ok = ok && valOK && nValStores > 0
 		c.require(ok, rule, "NewAddPathCapability", "code 69, tuples concatenated in order", p.Pos(fn.Pos()), "Capability{Code: 69, Value: Encode(t1) ++ Encode(t2) ++ …}")
 	}
 }
